@@ -101,7 +101,7 @@ type vResult struct {
 }
 
 type vStats struct {
-	Steps, Exchanges, Overlaps, Ack2, NoAck2, Drops, Restarts, Ticks, States, ConvChecks, ConvHeld, Superseded, BigVer int
+	Steps, Exchanges, Overlaps, Ack2, NoAck2, Drops, Restarts, Ticks, States, ConvChecks, ConvHeld, Superseded, BigVer, StatesLeft int
 }
 
 func (s *vStats) add(o vStats) {
@@ -118,6 +118,7 @@ func (s *vStats) add(o vStats) {
 	s.ConvHeld += o.ConvHeld
 	s.Superseded += o.Superseded
 	s.BigVer += o.BigVer
+	s.StatesLeft += o.StatesLeft
 }
 
 // ---------------------------------------------------------------- gate transport
@@ -521,6 +522,9 @@ func vReplay(hist []vStep, stats *vStats, cz vConc) (out vResult) {
 			c.jump(ctx, st.I)
 			isChange = true
 			stats.States++
+			if node.State(st.S) == node.StateLeft {
+				stats.StatesLeft++
+			}
 		case "restart":
 			// process restart: state reloaded from persistence into a fresh store, then the
 			// restart branch of cluster.Open (GetHost / Heartbeat.Restart / SetNode)
